@@ -8,3 +8,6 @@ open Biogo.Properties.C01_checker
 #print axioms fastq_plain_expected_is_roundtrip
 #print axioms fastq_expected_is_model
 #print axioms driver_cfg_is_default
+#print axioms faultDemand_none_iff
+#print axioms faultDemands_none_iff
+#print axioms faultRun_total
